@@ -22,10 +22,19 @@ type ptrKey struct {
 	typ reflect.Type
 }
 
+// ifaceSliceKey identifies a slice (by backing array, type and extent) found
+// in an interface value.
+type ifaceSliceKey struct {
+	ptr      uintptr
+	typ      reflect.Type
+	len, cap int
+}
+
 func newDeepCopier() *deepCopier {
 	return &deepCopier{
-		ptrMap: map[ptrKey]reflect.Value{},
-		mapMap: map[uintptr]reflect.Value{},
+		ptrMap:        map[ptrKey]reflect.Value{},
+		mapMap:        map[uintptr]reflect.Value{},
+		ifaceSliceMap: map[ifaceSliceKey]reflect.Value{},
 	}
 }
 
@@ -37,6 +46,11 @@ type deepCopier struct {
 	// map from input map-pointer to output-map to handle
 	// reference cycles.
 	mapMap map[uintptr]reflect.Value
+
+	// map from a slice found in an interface value to its copy, so a slice
+	// that reaches itself through interface values ([]interface{} holding
+	// itself) terminates.
+	ifaceSliceMap map[ifaceSliceKey]reflect.Value
 }
 
 func (d *deepCopier) deepCopyValue(v reflect.Value) reflect.Value {
@@ -119,7 +133,14 @@ func (d *deepCopier) deepCopyIface(in, out reflect.Value) {
 		if inElem.IsNil() {
 			return
 		}
-		out.Set(reflect.MakeSlice(inElem.Type(), inElem.Len(), inElem.Cap()))
+		sKey := ifaceSliceKey{ptr: inElem.Pointer(), typ: inElem.Type(), len: inElem.Len(), cap: inElem.Cap()}
+		if sv, ok := d.ifaceSliceMap[sKey]; ok {
+			out.Set(sv)
+			return
+		}
+		newSlice := reflect.MakeSlice(inElem.Type(), inElem.Len(), inElem.Cap())
+		d.ifaceSliceMap[sKey] = newSlice
+		out.Set(newSlice)
 		d.deepCopy(inElem, out.Elem())
 		return
 	case reflect.Array:
